@@ -407,12 +407,14 @@ func (*diff) charsetChange(from, top, to []schema.Attr) schema.Change {
 
 // columnCharsetChange indicates if there is a change to the column charset.
 func (d *diff) columnCharsetChanged(fromT *schema.Table, from, to *schema.Column) (bool, error) {
-	if err := d.defaultCharset(&to.Attrs); err != nil {
+	// Complete a copy: the desired column keeps the attributes it was given.
+	toAttrs := append([]schema.Attr(nil), to.Attrs...)
+	if err := d.defaultCharset(&toAttrs); err != nil {
 		return false, err
 	}
 	var (
 		fromC, topC, toC       schema.Charset
-		fromHas, topHas, toHas = sqlx.Has(from.Attrs, &fromC), sqlx.Has(fromT.Attrs, &topC), sqlx.Has(to.Attrs, &toC)
+		fromHas, topHas, toHas = sqlx.Has(from.Attrs, &fromC), sqlx.Has(fromT.Attrs, &topC), sqlx.Has(toAttrs, &toC)
 	)
 	// Column was updated with custom CHARSET that was dropped.
 	// Hence, we should revert to the one defined on the table.
@@ -427,12 +429,14 @@ func (d *diff) columnCharsetChanged(fromT *schema.Table, from, to *schema.Column
 
 // columnCollateChanged indicates if there is a change to the column charset.
 func (d *diff) columnCollateChanged(fromT *schema.Table, from, to *schema.Column) (bool, error) {
-	if err := d.defaultCollate(&to.Attrs); err != nil {
+	// Complete a copy: the desired column keeps the attributes it was given.
+	toAttrs := append([]schema.Attr(nil), to.Attrs...)
+	if err := d.defaultCollate(&toAttrs); err != nil {
 		return false, err
 	}
 	var (
 		fromC, topC, toC       schema.Collation
-		fromHas, topHas, toHas = sqlx.Has(from.Attrs, &fromC), sqlx.Has(fromT.Attrs, &topC), sqlx.Has(to.Attrs, &toC)
+		fromHas, topHas, toHas = sqlx.Has(from.Attrs, &fromC), sqlx.Has(fromT.Attrs, &topC), sqlx.Has(toAttrs, &toC)
 	)
 	// Column was updated with custom COLLATE that was dropped.
 	// Hence, we should revert to the one defined on the table.
